@@ -38,6 +38,17 @@ STORE_PAIRS = ["SSTORE SSTORE", "MSTORE MSTORE", "MSTORE8 MSTORE8", "MSTORE MSTO
                "MSTORE MSTORE MSTORE", "DUP2 DUP2 SSTORE SSTORE", "DUP2 DUP2 MSTORE MSTORE"]
 
 
+# bases with a sub-block for which the front-end generates no specification (it only pops, or is an identity) next to a
+# split instruction: exchanging adjacent instructions moves that sub-block across the split
+SPLIT_MOVES = ["POP GAS CALL", "POP POP GAS CALL", "POP GAS POP LOG0", "DUP1 POP GAS POP", "POP LOG0 POP", "SWAP1 SWAP1 GAS POP",
+               "POP GAS", "POP SLOAD GAS POP", "POP CALLDATACOPY POP"]
+
+
+# the same store twice: a one-to-one correspondence between the stores of the two blocks is needed to tell a changed copy
+REPEATED = ["DUP1 PUSH 1 SSTORE PUSH 1 SSTORE SWAP1", "DUP2 DUP2 SSTORE DUP2 DUP2 SSTORE", "DUP2 DUP2 MSTORE DUP2 DUP2 MSTORE",
+            "DUP1 PUSH 0 MSTORE PUSH 0 MSTORE", "DUP2 DUP2 MSTORE8 DUP2 DUP2 MSTORE8 POP", "PUSH 0 MSTORE PUSH 2 PUSH 1f KECCAK256 POP"]
+
+
 def apply(tokens, pos, kind, par, repl):
     t = list(tokens)
     i = pos - 1
@@ -161,7 +172,7 @@ def mutants_of(bases, tag="mut"):
 def run(tier):
     t0 = time.time()
     seed = common.seed()
-    texts = list(corpus.hand_blocks()) + STORE_PAIRS
+    texts = list(corpus.hand_blocks()) + STORE_PAIRS + SPLIT_MOVES + REPEATED
     if tier == "quick":
         for v, shapes, n in ((gen.rule_vocab(gen.C3), gen.RULE_SHAPES_BASIC, 150), (gen.mem_vocab(small=True), [["*", "*"]], 120),
                              (gen.sto_vocab(), [["*", "*"]], 80), (gen.stack_vocab(), [["*", "*", "*"]], 80),
@@ -190,10 +201,13 @@ def run(tier):
     # permutations in front of short memory/storage blocks are never sampled away (they make two accesses trade places)
     def keep(m):
         b = bases[m[0] - 1]
+        if " ".join(b) in SPLIT_MOVES or " ".join(b) in REPEATED:
+            return True            # every mutant of these few bases
         return m[2] == "permute" and len(b) <= 8 and any(t.split()[0] in ("MSTORE", "MSTORE8", "SSTORE", "MLOAD", "SLOAD", "KECCAK256") for t in b)
     kept = [m for m in muts if keep(m)]
     if tier == "quick":
-        kept = [m for m in kept if " ".join(bases[m[0] - 1]) in STORE_PAIRS] + corpus.sample([m for m in kept if " ".join(bases[m[0] - 1]) not in STORE_PAIRS], 600, seed)
+        always = STORE_PAIRS + SPLIT_MOVES + REPEATED
+        kept = [m for m in kept if " ".join(bases[m[0] - 1]) in always] + corpus.sample([m for m in kept if " ".join(bases[m[0] - 1]) not in always], 600, seed)
     muts = kept + corpus.sample([m for m in muts if not keep(m)], maxmut, seed)
     cmds, meta = [], []
     for bi, b in enumerate(bases):
@@ -212,11 +226,23 @@ def run(tier):
               [("default", ["-greedy"]), ("storage", ["-greedy", "-storage"]), ("partition", ["-greedy", "-partition"]),
                ("norules", ["-greedy", "-no-simplification"])]
     res = pool.run_matrix([(argv, [dict(c) for c in cmds]) for _, argv in optsets], timeout=20)
+    if tier == "quick":
+        # the pinned bases (stores exchanged, repeated stores, sub-blocks without specification) also with rules disabled
+        pinned = set(STORE_PAIRS + SPLIT_MOVES + REPEATED)
+        sel = [i for i, c in enumerate(cmds) if c["a"] in pinned]
+        rs = pool.run_matrix([(["-greedy", "-no-simplification"], [dict(cmds[i]) for i in sel])], timeout=20)[0]
+        full = [{"skipped": True}] * len(cmds)
+        for i, r in zip(sel, rs):
+            full[i] = r
+        optsets = optsets + [("norules", ["-greedy", "-no-simplification"])]
+        res = list(res) + [full]
     cases, viol = [], []
     cnt = {"compared": 0, "refl_ok": 0, "refl_fail": 0, "exceptions": 0, "killed": 0, "mut_equal": 0, "mut_different": 0}
     index = {}
     for (oname, argv), rs in zip(optsets, res):
         for (kind, bi, mi), cmd, r in zip(meta, cmds, rs):
+            if r.get("skipped"):
+                continue
             cnt["compared"] += 1
             if r.get("killed"):
                 cnt["killed"] += 1
